@@ -38,9 +38,19 @@ func tryReplay(id string, o *Obligation, r SolveResult, eng *Engine, cfg *PropCo
 			return t, out, ok
 		}
 	}
+	if strings.Contains(e.name, "cue/scanner.Scanner)") && (o.Kind == "bounds" || o.Kind == "panic") {
+		if t, out, ok := tryReplayScanner(o, eng); t != "" {
+			return t, out, ok
+		}
+	}
 	switch o.Kind {
 	case "post", "bounds", "div0", "panic", "assert-type", "pre":
 	default:
+		return "", "", false
+	}
+	if r.CandidateModel && o.Kind == "post" {
+		// the violation of a postcondition in a candidate model may be an artefact of
+		// the dropped axioms: matching results would not confirm it
 		return "", "", false
 	}
 	if len(e.loops) > 0 && o.Kind != "post" {
@@ -282,7 +292,7 @@ func TestGovcReplay(t *testing.T) {
 	ovFile := filepath.Join(tmp, "overlay.json")
 	os.WriteFile(ovFile, ovData, 0o644)
 	rel, _ := filepath.Rel(eng.RepoDir, dir)
-	cmd := exec.Command("go", "test", "-overlay", ovFile, "-vet=off", "-timeout", "60s", "-count=1", "-run", "^TestGovcReplay$", "./"+rel)
+	cmd := exec.Command("go", "test", "-overlay", ovFile, "-vet=off", "-timeout", "60s", "-count=1", "-v", "-run", "^TestGovcReplay$", "./"+rel)
 	cmd.Dir = eng.RepoDir
 	cmd.Env = append(os.Environ(), "GOFLAGS=-mod=mod", "GOPROXY=off")
 	done := make(chan struct{})
@@ -380,11 +390,17 @@ func getValues(o *Obligation, terms []string) ([]string, bool) {
 	defer os.Remove(tmp.Name())
 	tmp.WriteString(script)
 	tmp.Close()
-	cmd := exec.Command("z3-new", "-smt2", "-T:30", tmp.Name())
+	cmd := exec.Command("z3-new", "-smt2", "-T:60", tmp.Name())
 	outb, _ := cmd.Output()
 	out := string(outb)
 	if !strings.HasPrefix(strings.TrimSpace(out), "sat") {
-		return nil, false
+		// second opinion
+		cmd = exec.Command("cvc5", "--tlimit=60000", tmp.Name())
+		outb, _ = cmd.Output()
+		out = string(outb)
+		if !strings.HasPrefix(strings.TrimSpace(out), "sat") {
+			return nil, false
+		}
 	}
 	body := out[strings.Index(out, "sat")+3:]
 	// parse ((term value) (term value) ...)
@@ -456,3 +472,175 @@ func parsePairs(s string) []string {
 }
 
 var _ = ssa.GlobalDebug
+
+// tryReplayScanner: a bounds/panic obligation of a Scanner method failed. The model
+// gives the source bytes of the scanner; the real scanner is run over them from the
+// start (and from the model's current offset). The violation is reproduced iff the
+// real run panics.
+func tryReplayScanner(o *Obligation, eng *Engine) (test, out string, reproduced bool) {
+	e := o.enc
+	var recv string
+	for _, p := range e.fn.Params {
+		if p.Name() == "s" {
+			recv = e.vals[p].S
+		}
+	}
+	if recv == "" {
+		return "", "", false
+	}
+	srcT := fmt.Sprintf("(select %s %s)", e.compAt("H.scanner.Scanner.src"), recv)
+	offT := fmt.Sprintf("(select %s %s)", e.compAt("H.scanner.Scanner.offset"), recv)
+	// steer the model towards states a real scanner can be in (facts about real states
+	// that the contract's invariant does not carry; they only narrow the search — the
+	// real run decides): an ASCII current character is the byte at the current offset
+	// and the read offset is one past it; keep the source short
+	chT := fmt.Sprintf("(select %s %s)", e.compAt("H.scanner.Scanner.ch"), recv)
+	rdT := fmt.Sprintf("(select %s %s)", e.compAt("H.scanner.Scanner.rdOffset"), recv)
+	byteAt := func(i string) string {
+		return fmt.Sprintf("(select (select %s (sl-base %s)) (+ (sl-off %s) %s))", e.compAt("Elem.uint8"), srcT, srcT, i)
+	}
+	o2 := *o
+	o2.Extra = append(append([]string{}, o.Extra...),
+		fmt.Sprintf("(<= (sl-len %s) 64)", srcT),
+		fmt.Sprintf("(=> (and (<= 0 %s) (< %s 128)) (and (<= 0 %s) (< %s (sl-len %s)) (= %s %s) (= %s (+ %s 1))))", chT, chT, offT, offT, srcT, byteAt(offT), chT, rdT, offT))
+	o = &o2
+	vals, ok := getValues(o, []string{"(sl-len " + srcT + ")", offT})
+	if !ok {
+		return "(no test generated)", "scanner adapter: the steered model query was not answered sat", false
+	}
+	n, err := strconv.Atoi(vals[0])
+	if err != nil || n < 0 || n > 400 {
+		return "", "", false
+	}
+	off, _ := strconv.Atoi(vals[1])
+	if off < 0 || off > n {
+		off = 0
+	}
+	terms := []string{"(sl-len " + srcT + ")"}
+	for i := 0; i < n; i++ {
+		terms = append(terms, fmt.Sprintf("(select (select %s (sl-base %s)) (+ (sl-off %s) %d))", e.compAt("Elem.uint8"), srcT, srcT, i))
+	}
+	o3 := *o
+	o3.Extra = append(append([]string{}, o.Extra...), fmt.Sprintf("(= (sl-len %s) %d)", srcT, n))
+	bv, ok := getValues(&o3, terms)
+	if !ok || bv[0] != vals[0] {
+		// no bytes from the model: the witness search below still runs
+		bv = nil
+	}
+	data := make([]byte, n)
+	for i := 0; i < n && bv != nil; i++ {
+		b, err := strconv.Atoi(bv[i+1])
+		if err != nil || b < 0 || b > 255 {
+			data = nil
+			break
+		}
+		data[i] = byte(b)
+	}
+	if bv == nil {
+		data = nil
+	}
+	if off > len(data) {
+		off = 0
+	}
+	src := fmt.Sprintf(`package scanner
+
+import (
+	"fmt"
+	"testing"
+
+	"cuelang.org/go/cue/token"
+)
+
+// generated by /verif/govc from the model of obligation
+// %s
+func TestGovcReplay(t *testing.T) {
+	panicked := false
+	run := func(src []byte) {
+		defer func() {
+			if r := recover(); r != nil {
+				if !panicked {
+					fmt.Printf("REPLAY-PANIC: scanning %%q: %%v\n", src, r)
+				}
+				panicked = true
+			}
+		}()
+		var s Scanner
+		s.Init(token.NewFile("replay.cue", -1, len(src)), src, nil, ScanComments)
+		for i := 0; i < len(src)+2; i++ {
+			if _, tok, _ := s.Scan(); tok == token.EOF {
+				break
+			}
+		}
+	}
+	all := []byte(%q)
+	run(all)
+	for k := 0; k <= %d && k <= len(all); k++ {
+		run(all[k:])
+	}
+	if !panicked {
+		// witness search: the model's source bytes are only as consistent as the
+		// contracts of the callees make them, so also enumerate every input of up to
+		// three bytes (four for the punctuation subset) over the characters that are
+		// significant to the scanner. This is a bounded search for a failing input of
+		// an obligation that already failed, not part of the proof.
+		alpha := []byte("_|\"'#\\/*.019eExXbo+-=!<>&:;,()[]{}?$@ \n\ta\x80\xff\xef\xbb\xbf")
+		punct := []byte("_|\"'#\\/*.=!<>&-")
+		buf := make([]byte, 0, 4)
+		var rec func(a []byte, depth, max int)
+		rec = func(a []byte, depth, max int) {
+			if panicked {
+				return
+			}
+			run(buf)
+			if depth == max {
+				return
+			}
+			for _, c := range a {
+				buf = append(buf, c)
+				rec(a, depth+1, max)
+				buf = buf[:len(buf)-1]
+			}
+		}
+		rec(alpha, 0, 3)
+		rec(punct, 0, 4)
+	}
+	fmt.Println("REPLAY-DONE")
+}
+`, o.Name, string(data), off)
+	dir := filepath.Join(eng.RepoDir, "cue", "scanner")
+	out, err2 := runOverlayTest(eng, dir, "./cue/scanner", src)
+	if err2 != nil {
+		return src, err2.Error(), false
+	}
+	return src, out, strings.Contains(out, "REPLAY-PANIC")
+}
+
+// runOverlayTest injects src as an in-package test through -overlay and runs it.
+func runOverlayTest(eng *Engine, dir, pkg, src string) (string, error) {
+	tmp, err := os.MkdirTemp("", "govc-replay")
+	if err != nil {
+		return "", err
+	}
+	defer os.RemoveAll(tmp)
+	testFile := filepath.Join(tmp, "zz_govc_replay_test.go")
+	os.WriteFile(testFile, []byte(src), 0o644)
+	ov := map[string]any{"Replace": map[string]string{filepath.Join(dir, "zz_govc_replay_test.go"): testFile}}
+	ovData, _ := json.Marshal(ov)
+	ovFile := filepath.Join(tmp, "overlay.json")
+	os.WriteFile(ovFile, ovData, 0o644)
+	cmd := exec.Command("go", "test", "-overlay", ovFile, "-vet=off", "-timeout", "60s", "-count=1", "-v", "-run", "^TestGovcReplay$", pkg)
+	cmd.Dir = eng.RepoDir
+	cmd.Env = append(os.Environ(), "GOFLAGS=-mod=mod", "GOPROXY=off")
+	done := make(chan struct{})
+	var outb []byte
+	go func() { outb, _ = cmd.CombinedOutput(); close(done) }()
+	select {
+	case <-done:
+	case <-time.After(180 * time.Second):
+		if cmd.Process != nil {
+			cmd.Process.Kill()
+		}
+		return "", fmt.Errorf("replay timed out")
+	}
+	return string(outb), nil
+}
